@@ -86,6 +86,7 @@ def run(ctx):
         lock_async['q']: {'insert_back', 'iter', 'query'},
         unlock['q']: {'read_front', 'remove_front', 'query'},
     }
+    _eff, _owners = lib.effective_allowed(allowed, lib.class_call_closure(P, A, 'simgrid::kernel::activity::'))
     uses = lib.field_uses(P, queue)
     ctx.count('call_sites', len(uses))
     for u in uses:
@@ -96,7 +97,8 @@ def run(ctx):
         if cls in ('query',):
             ctx.holds('R3', '%s: %s' % (fq, u.method), where(u.fn, u.line), 'size/empty query')
             continue
-        ok = cls in allowed.get(fq, set())
+        own = _owners(fq)      # the operations of a private helper belong to the entry points that call it
+        ok = bool(own) and all(cls in _eff.get(o, set()) for o in own)
         ctx.check(ok, 'R3', '%s: %s' % (fq.rsplit('::', 2)[-2] + '::' + fq.rsplit('::', 1)[-1], u.method or u.kind), where(u.fn, u.line),
                   'operation class %s on the queue %s' % (cls, 'allowed here' if ok else 'breaks the FIFO discipline (allowed: back insertion in lock_async, front removal in unlock)'),
                   key='R3|%s|%s' % (fq.rsplit('::', 1)[-1], cls))
